@@ -424,6 +424,12 @@ func (c *Ctx) structName(t types.Type) string {
 	return "S_anon_" + sanitize(typeName(t))
 }
 
+// isBuilderType reports the library text accumulators modelled by the ghost map sbuf.
+func isBuilderType(t types.Type) bool {
+	n := typeName(t)
+	return n == "strings.Builder" || n == "bytes.Buffer"
+}
+
 // opaqueStruct reports struct types that are never modelled field by field.
 func opaqueStruct(t types.Type) bool {
 	nt, ok := t.(*types.Named)
